@@ -21,7 +21,7 @@ LEVEL_TEXT = ("static analysis: (D1) copy-on-write lost-write rule over cnvlib/s
               "the bin frame is reset_index()ed first, and the HMM state series is built on the bins' own index; (D3) transfer_fields "
               "interpreted on symbolic bins: per segment weight = sum of bin weights, depth = weight-averaged depth (0 when the weights sum "
               "to 0; plain count / mean without a weight column), gene = ordered distinct names outside the ignored / antitarget names, "
-              "over iter_slices(bins, segments, 'outer', keep_empty=False); segment_none: first start, last end, probes = number of bins, "
+              "over iter_slices(bins, segments, 'outer', keep_empty=False) taken after the endpoints were stretched (so filtered edge bins are included); segment_none: first start, last end, probes = number of bins, "
               "log2 = segment_mean (weight-averaged, plain mean when no weight is positive); (D4) every name in SEGMENT_METHODS selects "
               "a branch of _do_segmentation (none falls through to the error), the CLI choices are that tuple, none/haar/cbs run per arm "
               "through pool.map and flasso/hmm* on the whole array; (D5) results of the pool are consumed through Executor.map and "
@@ -131,6 +131,7 @@ def d3(chk, prog):
 
         def slices(it, table, other, mode, keep_empty, seen=seen):
             seen["args"] = (mode, keep_empty, table, other)
+            seen["span_at_aggregation"] = (other.cols["start"].v[0], other.cols["end"].v[-1])
             return [[0, 1, 2], [3, 4, 5]]
         model.prims["skgenome.intersect.iter_slices"] = slices
         model.ext["pd.unique"] = lambda it, v: _unique(v)
@@ -160,7 +161,10 @@ def d3(chk, prog):
             ok = ok and same(c["weight"].v[j], ww) and same(c["depth"].v[j], wd) and c["gene"].v[j] == wantg[j]
         ok = ok and same(c["start"].v[0], s[0]) and same(c["end"].v[1], e[5]) and same(c["end"].v[0], Term.sym("E0")) and same(c["start"].v[1], Term.sym("S1"))
         ok = ok and same(c["log2"].v[0], Term.sym("L0")) and same(c["log2"].v[1], Term.sym("L1"))
-        tb.cell(ok, dict(weights=wkind, iter_slices=repr(seen.get("args", ())[:2]), got={k: [repr(x) for x in v.v] for k, v in c.items() if k in ("start", "end", "weight", "depth", "gene")}))
+        sp = seen.get("span_at_aggregation", (None, None))
+        stretched_first = sp[0] is not None and same(sp[0], s[0]) and same(sp[1], e[5])
+        ok = ok and stretched_first
+        tb.cell(ok, dict(weights=wkind, iter_slices=repr(seen.get("args", ())[:2]), segments_stretched_before_aggregation=stretched_first, got={k: [repr(x) for x in v.v] for k, v in c.items() if k in ("start", "end", "weight", "depth", "gene")}))
     tb.done("segment weight / depth / gene / stretched endpoints are not the stated aggregates of the bins the segment spans")
 
     fn = prog.fn("cnvlib.segmentation.none.segment_none")
@@ -207,6 +211,40 @@ def d3(chk, prog):
             want = t_div(_sum(v), Term.const(3))
         tb3.cell(same(out, want), dict(weights=wkind, got=repr(out), want=repr(want)))
     tb3.done("segment_mean is not the weight-averaged log2 (mean without usable weights)")
+
+
+def d3b(chk, prog):
+    chk.clause("D3b", "the bins that reach the segmenter are exactly those surviving every enabled filter (low coverage, outliers, weight)")
+    fi = prog.fn("cnvlib.segmentation._do_segmentation")
+    tb = Table(chk, "filter-cascade", "_do_segmentation: rows handed to the segmenter (skip_low x skip_outliers x min_weight)", fi.loc(), fi.qn)
+    kinds = ["normal", "lowcov", "outlier", "zero-weight", "light", "normal2"]
+    for skip_low, skip_out, min_weight in itertools.product([False, True], [0, 10], [0, Fr(1, 2)]):
+        W.reset()
+        rows = []
+        for i, k in enumerate(kinds):
+            lg = Term.sym(f"v{i}", -INF, -16) if k == "lowcov" else Term.sym(f"v{i}", -10, 10)
+            w = {"zero-weight": Fr(0), "light": Fr(1, 4)}.get(k, Fr(9, 10))
+            rows.append(dict(chromosome="chr1", start=i * 100, end=i * 100 + 100, gene=k, log2=lg, depth=Term.sym(f"d{i}", 1, INF), weight=w))
+        arr = make_ga("CopyNumArray", rows, {"sample_id": "S"}, index="any", exact=True)
+        model = Model()
+        seen = {}
+
+        def drop_outliers(it, cn, width, factor):
+            return it.load_sub(cn, Vec([g != "outlier" for g in cn.data.cols["gene"].v]))
+        model.prims["cnvlib.segmentation.drop_outliers"] = lambda it, cn, width, factor: it.lib.load_subscript(it, cn, Vec([g != "outlier" for g in cn.data.cols["gene"].v]))
+
+        def seg_none(it, cn, seen=seen):
+            seen["bins"] = list(cn.data.cols["gene"].v)
+            return make_ga("CopyNumArray", [dict(chromosome="chr1", start=0, end=1, gene="-", log2=0, probes=len(seen["bins"]))], {}, exact=True)
+        model.prims["cnvlib.segmentation.none.segment_none"] = seg_none
+        model.prims["cnvlib.segmentation.transfer_fields"] = lambda it, segarr, cnarr, *a, **k: segarr
+        it = Interp(prog, model)
+        out = tb.guard(lambda: it.run(fi.qn, [arr, "none", None, None, None, skip_low, skip_out, min_weight]), f"skip_low={skip_low} skip_outliers={skip_out} min_weight={min_weight}")
+        if out is None:
+            continue
+        want = [k for k in kinds if not (skip_low and k == "lowcov") and not (skip_out and k == "outlier") and not (k == "zero-weight") and not (min_weight and k == "light")]
+        tb.cell(seen.get("bins") == want and arr.data.n == len(kinds), dict(skip_low=skip_low, skip_outliers=skip_out, min_weight=str(min_weight), bins_segmented=seen.get("bins"), want=want))
+    tb.done("a bin removed by one filter is brought back by another (or a surviving bin is dropped): probes would not count the surviving bins")
 
 
 def _sum(ts):
@@ -331,6 +369,7 @@ def run(chk):
     d1(chk, prog)
     d2(chk, prog)
     d3(chk, prog)
+    d3b(chk, prog)
     d4(chk, prog)
     d5(chk, prog)
     d6(chk, prog)
@@ -353,5 +392,12 @@ MUTANTS = [
     dict(name="none: end of first bin", file="cnvlib/segmentation/none.py", old="            cnarr.end.iat[-1],", new="            cnarr.end.iat[0],"),
     dict(name="segment_mean ignores weights", file="cnvlib/segmetrics.py", old='        return np.average(cnarr["log2"], weights=cnarr["weight"])', new='        return np.average(cnarr["log2"])'),
     dict(name="hmm states on a fresh index", file="cnvlib/segmentation/hmm.py", old="cnarr, pd.Series(states, index=cnarr.data.index), by_arm=True", new="cnarr, pd.Series(states), by_arm=True"),
+    dict(name="seeded C03a: endpoints stretched after the aggregation", edits=[(_S, '    segments.data.iloc[0, segments.data.columns.get_loc("start")] = bins_start\n    segments.data.iloc[-1, segments.data.columns.get_loc("end")] = bins_end\n', ""),
+        (_S, "        gene=seg_genes, weight=seg_weights, depth=seg_depths\n    )\n    return segments\n", '        gene=seg_genes, weight=seg_weights, depth=seg_depths\n    )\n    segments.data.iloc[0, segments.data.columns.get_loc("start")] = bins_start\n    segments.data.iloc[-1, segments.data.columns.get_loc("end")] = bins_end\n    return segments\n')]),
+    dict(name="seeded C03b: weight filter restarts from the unfiltered bins", edits=[(_S, '        weight_too_low = (filtered_cn["weight"] == 0).fillna(True)', '        weight_too_low = (cnarr["weight"] == 0).fillna(True)'),
+        (_S, '        weight_too_low = (filtered_cn["weight"] < min_weight).fillna(True)', '        weight_too_low = (cnarr["weight"] < min_weight).fillna(True)'),
+        (_S, "        filtered_cn = filtered_cn[~weight_too_low]", "        filtered_cn = cnarr[~weight_too_low]")]),
+    dict(name="skip_low not applied", file=_S, old="    if skip_low:\n        filtered_cn = filtered_cn.drop_low_coverage(verbose=False)\n", new=""),
+    dict(name="zero-weight bins kept", file=_S, old='        weight_too_low = (filtered_cn["weight"] == 0).fillna(True)', new='        weight_too_low = (filtered_cn["weight"] < 0).fillna(True)'),
     dict(name="twin: stretch through .loc on the first label", file=_S, old='    segments.data.iloc[0, segments.data.columns.get_loc("start")] = bins_start\n', new='    segments.data.loc[segments.data.index[0], "start"] = bins_start\n', expect="silent"),
 ]
